@@ -6,6 +6,12 @@ ROOT = os.path.dirname(os.path.dirname(os.path.abspath(__file__)))
 
 # id -> (level, technique, level text, level note, design ref)
 CHECKS = {
+    "C14": ("exploration", "runtime monitoring: during walks every visited (path, node) is resolved back from the root three ways (Get, Focus, stepwise LookupBySegment with link loading) and compared with the visited node and with a reference resolver over the abstract graph; paths are kept beyond the callback and resolved again after the walk; all positions enumerated from the nodes' own keys/indices; perturbed (partially existing) paths must fail exactly when the reference says so; String/ParsePath round trip",
+            "Held on the graphs, walks and paths observed. Sampling of graphs; per graph all positions (capped at 400) and all visits are checked.",
+            "Trusted: the reference resolver in internal/props/c14.go, internal/obs.", "DESIGN.md §2 C14"),
+    "C15": ("exploration", "runtime monitoring with a metamorphic oracle: restricted walks (every node budget 0..|U|+2, every link budget 0..|L|+1, start-at every visited path, visit-links-once, loader skip sets) compared with the implementation's own unrestricted visit and load sequences recorded at the callback and storage boundaries",
+            "Held on the (graph, selector) pairs observed; per pair the budget and start-at spaces are enumerated completely (sampled for walks longer than 40-60 visits).",
+            "Trusted: nothing beyond the unrestricted walk being deterministic (checked). No preloader.", "DESIGN.md §2 C15"),
     "C20": ("exploration", "sanitizer + result monitor: Go race detector build; goroutines run seeded read-only operations on one pool of shared nodes, selectors, prototypes, type systems, registry, link system and traversal config, in warm mode (sequential reference digests first) and cold mode (first use is concurrent); per-goroutine result digests compared with sequential ones; race logs de-duplicated by innermost library frames; overlap table shows which operation pairs were in flight together",
             "Held on the schedules observed apart from one known finding (first-time schema inference writes the process-wide bindnode type system while readers use it). Absence of a race report is not absence of a race.",
             "Trusted: the race detector. Stream-backed bytes nodes share the caller's reader and are not read concurrently.", "DESIGN.md §2 C20"),
